@@ -16,7 +16,8 @@ ERRNO = {
     "ENOENT": _errno.ENOENT, "EACCES": _errno.EACCES, "EISDIR": _errno.EISDIR, "ENOSPC": _errno.ENOSPC,
     "EMFILE": _errno.EMFILE, "EIO": _errno.EIO, "EDQUOT": _errno.EDQUOT, "EPIPE": _errno.EPIPE,
     "EINTR": _errno.EINTR, "EEXIST": _errno.EEXIST, "ENOTDIR": _errno.ENOTDIR, "EROFS": _errno.EROFS,
-    "EBADF": _errno.EBADF,
+    "EBADF": _errno.EBADF, "ESTALE": _errno.ESTALE, "EAGAIN": _errno.EAGAIN, "EBUSY": _errno.EBUSY,
+    "ETIMEDOUT": _errno.ETIMEDOUT, "EXDEV": _errno.EXDEV,
 }
 
 CWD = "/sim"
@@ -40,6 +41,8 @@ class SimRaw(io.RawIOBase):
         self.pos = 0
         self.name = path
         self.mode = ("r" if readable else "") + ("w" if writable else "") + "b"
+        self.buf = fs.files.get(path) if role != "STDOUT" else None
+        self._at_open = bytes(fs.files.get(path, b"")) if writable and role != "STDOUT" else b""
 
     # -- capabilities ----------------------------------------------------------------------
     def readable(self):
@@ -69,12 +72,15 @@ class SimRaw(io.RawIOBase):
 
     # -- data ------------------------------------------------------------------------------
     def _data(self) -> bytearray:
+        # a descriptor refers to the file object (inode), not to the name: a rename while the file
+        # is open keeps the data flowing into the renamed file, an unlink detaches it
         if self.role == "STDOUT":
             return self.fs.stdout_bytes
-        d = self.fs.files.get(self.path)
-        if d is None:  # unlinked while open: keep writing into a detached buffer
-            d = self.fs.detached.setdefault(id(self), bytearray())
-        return d
+        if self.buf is None:
+            self.buf = self.fs.files.get(self.path)
+            if self.buf is None:
+                self.buf = bytearray()
+        return self.buf
 
     def readinto(self, b):
         n_req = len(b)
@@ -117,6 +123,10 @@ class SimRaw(io.RawIOBase):
         data[self.pos:self.pos + len(b)] = b
         self.pos += len(b)
         self.fs.record("write", self.role, self.path, n_req, len(b))
+        if self.role != "STDOUT":
+            for pth, obj in self.fs.files.items():
+                if obj is data:
+                    self.fs.touch(pth)
         return len(b)
 
     def seek(self, offset, whence=0):
@@ -154,6 +164,10 @@ class SimRaw(io.RawIOBase):
         super().close()
         self.fs.record("close", self.role, self.path, 0, 0)
         if f is not None:
+            if f.get("lose") and self._w and self.role != "STDOUT" and self.buf is not None:
+                # deferred write error (NFS, quota): what was written through this descriptor never
+                # reached the disk
+                self.buf[:] = self._at_open
             raise _oserror(f["kind"], self.path)
 
 
@@ -168,6 +182,7 @@ class SimFS:
         self.unreadable = {self.norm(p) for p in unreadable}
         self.roles = {self.norm(p): r for p, r in (roles or {}).items()}
         self.plan = {int(f["at"]): f for f in (plan or [])}
+        self.persistent: list = []
         self.knobs = knobs or {}
         self.history: list = []
         self.mutations: list = []
@@ -177,6 +192,7 @@ class SimFS:
         self.seq = 0
         self.open_objs: list = []
         self.passthrough: list = []
+        self.mtimes: dict = {}       # path -> logical modification time
         self.fds: dict = {}          # simulated descriptors (>= FD_BASE) -> SimRaw
         self.next_fd = FD_BASE
 
@@ -207,7 +223,16 @@ class SimFS:
         self.seq += 1
         f = self.plan.get(self.seq)
         if f is None:
-            return None
+            # a persistent condition (full disk, stale handle, revoked permission) keeps failing
+            # every later call of the same kind on the same file
+            for pf in self.persistent:
+                if pf["op"] == op and pf["role"] == role and self.seq > pf["at"]:
+                    f = pf
+                    break
+            if f is None:
+                return None
+        elif f.get("persist") and f.get("op") == op:
+            self.persistent.append({"at": self.seq, "op": op, "role": role, "kind": f["kind"], "persist": True})
         if f.get("op") and f["op"] != op:
             return None  # plan was made for another kind of call at this index: does not fire
         if f["kind"] != "short":
@@ -223,6 +248,15 @@ class SimFS:
 
     def mutation(self, what, role, path):
         self.mutations.append([self.seq, what, role, path])
+        self.touch(path)
+
+    def touch(self, path):
+        # logical clock: later than every initial mtime, increasing with the I/O sequence
+        self.mtimes[path] = 100000.0 + self.seq
+
+    def set_mtimes(self, mt: dict):
+        for p, t in (mt or {}).items():
+            self.mtimes[self.norm(p)] = float(t)
 
     # -- open ------------------------------------------------------------------------------
     def open(self, file, mode="r", buffering=-1, encoding=None, errors=None, newline=None, closefd=True, opener=None):
@@ -233,6 +267,7 @@ class SimFS:
             # warning or traceback is formatted); writing to them is outside the model
             if set(mode) & set("wax+"):
                 self.passthrough.append(repr(file))
+                raise PermissionError(_errno.EACCES, "write to a real path blocked by the simulator", os.fspath(file) if not isinstance(file, int) else None)
             return self._real_open(file, mode, buffering, encoding, errors, newline, closefd, opener)
         path = self.norm(file)
         role = self.role_of(path)
@@ -397,7 +432,9 @@ class SimFS:
             return os.stat_result((_stat.S_IFDIR | 0o755, 1, 1, 1, 0, 0, 4096, 0, 0, 0))
         if p in self.files:
             mode = 0o444 if p in self.ro else 0o644
-            return os.stat_result((_stat.S_IFREG | mode, hash(p) & 0xFFFF, 1, 1, 0, 0, len(self.files[p]), 0, 0, 0))
+            mt = int(self.mtimes.get(p, 1000.0))
+            ino = sum(p.encode()) & 0xFFFF
+            return os.stat_result((_stat.S_IFREG | mode, ino, 1, 1, 0, 0, len(self.files[p]), mt, mt, mt))
         raise FileNotFoundError(_errno.ENOENT, os.strerror(_errno.ENOENT), p)
 
     def os_stat(self, path, *a, **kw):
@@ -593,6 +630,8 @@ class Patches:
         _real_listdir = self.saved[-1][2]
         self._set(_os, "chmod", wrap1(_os.chmod, lambda path, *a, **kw: None))
         self._set(_os.path, "getsize", wrap1(_os.path.getsize, lambda p: len(fs.files[fs.norm(p)]) if fs.norm(p) in fs.files else fs.os_stat(p).st_size))
+        self._set(_os.path, "getmtime", wrap1(_os.path.getmtime, lambda p: fs.os_stat(p).st_mtime))
+        self._set(_os, "utime", wrap1(_os.utime, lambda p, *a, **k: None))
         self._set(_os.path, "abspath", wrap1(_os.path.abspath, lambda p: fs.norm(p)))
         self._set(_os.path, "realpath", wrap1(_os.path.realpath, lambda p, **kw: fs.norm(p)))
         try:
@@ -602,6 +641,36 @@ class Patches:
             self._set(_fcntl, "lockf", wrapfd(_fcntl.lockf, lambda fd, *a, **k: None))
         except ImportError:
             pass
+
+    def install_determinism(self, seed: int):
+        """Sources of nondeterminism a command-line program commonly uses for temporary names and
+        time stamps, put behind the simulator: process id, clocks, tempfile's private generator,
+        uuid, os.urandom (Python-level callers)."""
+        import os as _os
+        import random as _random
+        import tempfile as _tempfile
+        import time as _time
+        import uuid as _uuid
+
+        rng = _random.Random(seed)
+        clock = [1_700_000_000.0]
+
+        def now():
+            clock[0] += 0.001
+            return clock[0]
+
+        self._set(_os, "getpid", lambda: 4242)
+        self._set(_os, "getppid", lambda: 4241)
+        self._set(_time, "time", now)
+        self._set(_time, "time_ns", lambda: int(now() * 1e9))
+        self._set(_time, "monotonic", now)
+        self._set(_time, "perf_counter", now)
+        self._set(_os, "urandom", lambda n: bytes(rng.getrandbits(8) for _ in range(n)))
+        self._set(_random, "_urandom", _os.urandom)
+        self._set(_uuid, "uuid4", lambda: _uuid.UUID(int=rng.getrandbits(128), version=4))
+        self._set(_uuid, "uuid1", lambda *a, **k: _uuid.UUID(int=rng.getrandbits(128), version=1))
+        self._set(_tempfile._RandomNameSequence, "rng", property(lambda self_: rng))
+        self._set(_tempfile, "tempdir", None)
 
     def uninstall(self):
         for mod, name, val in reversed(self.saved):
